@@ -6,6 +6,7 @@ package main
 // command goroutines) and the client threads.
 
 import (
+	"time"
 	"fmt"
 	"strings"
 
@@ -191,7 +192,10 @@ func (ls *lifeScenario) body(x *Exec) {
 	// --- termination, possibly racing with client activity: every schedule of this window
 	verifrt.SetSerial(false)
 	closed := false
+	closeBegan := verifrt.Now()
+	var closeTook time.Duration
 	verifrt.GoNamed("closer", func() {
+		defer func() { closeTook = verifrt.Now().Sub(closeBegan) }()
 		if ls.splitTerm {
 			emu.RequestTermination()
 			emu.RequestTermination() // idempotent
@@ -231,6 +235,9 @@ func (ls *lifeScenario) body(x *Exec) {
 	if !closed {
 		viol("close-does-not-return", "Close / WaitForTermination has not returned although every thread is idle (clients: %v)", ls.states)
 		return
+	}
+	if closeTook > 5*time.Second && !ls.persist {
+		viol("close-takes-too-long", "Close / WaitForTermination returned only after %v of virtual time (clients: %v): something waited for a client", closeTook, ls.states)
 	}
 	x.note("racer done=%v reply=%v err=%q", racerDone, racerReply, racerErr)
 	// what the clients saw while the emulator was terminating is the outcome of the schedule
